@@ -211,7 +211,7 @@ class Tracks:
                 # Multiple position attributes (one per axis)
                 multi_position_key = list(pos_attr)
                 for attr in pos_attr:
-                    features[attr] = {
+                    feature_dict[attr] = {
                         "feature_type": "node",
                         "value_type": "float",
                         "num_values": 1,
